@@ -359,4 +359,247 @@ theorem results_only_when_maybe_completed (fixed : Bool) (j : Job) (r1 r2 : Resp
     · simp [hm] at hres
     · simp
 
+/-- A failed job without retrievable results reports its failure message: the `RuntimeError`
+"The job failed: …" is only raised for a job whose status is ERROR/CANCELED and carries that job's
+stop message. -/
+theorem failed_message (fixed : Bool) (j : Job) (r1 r2 : Resp) (h : RResp) (m : Msg)
+    (hres : (getResults fixed j r1 r2 h).2.res = .raised (.jobFailed m)) :
+    (getResults fixed j r1 r2 h).1.status.failed = true ∧ (getResults fixed j r1 r2 h).1.msg = m := by
+  have he1 := readStatus_exc fixed j r1
+  unfold getResults at hres ⊢
+  generalize readStatus fixed j r1 = p at hres he1 ⊢
+  obtain ⟨j1, e, c⟩ := p
+  cases e with
+  | some e =>
+    have := (he1 e rfl).1
+    subst this
+    cases r1 <;> simp [respExc] at hres
+  | none =>
+    simp only at hres ⊢
+    split at hres
+    · simp at hres
+    · split
+      · simp_all
+      · have he2 : ∀ e, (if j1.cache.isSome then readStatus fixed j1 r2 else (j1, none, [])).2.1 = some e →
+            e = respExc r2 := by
+          intro e
+          split
+          · exact fun h => (readStatus_exc fixed j1 r2 e h).1
+          · simp
+        generalize (if j1.cache.isSome then readStatus fixed j1 r2 else (j1, none, [])) = p2 at hres he2 ⊢
+        obtain ⟨j2, e2, c2⟩ := p2
+        cases e2 with
+        | some e =>
+          have := he2 e rfl
+          subst this
+          cases r2 <;> simp [respExc] at hres
+        | none =>
+          simp only at hres ⊢
+          split at hres
+          · simp at hres
+          · split
+            · simp_all
+            · cases h with
+              | missing =>
+                simp only at hres ⊢
+                cases hf : j2.status.failed
+                · simp [hf] at hres
+                · simp only [hf, if_true, Res.raised.injEq, Exc.jobFailed.injEq] at hres
+                  exact ⟨rfl, hres⟩
+              | ok t => simp at hres
+              | empty => simp at hres
+              | http c => simp at hres
+              | conn => simp at hres
+
+/-- the message of a job whose ERROR/CANCELED status came from the server is that answer's
+`status_message` (any state, both versions) -/
+theorem failed_read_sets_message (fixed : Bool) (j : Job) (s : String) (m : Nat)
+    (hd : statusDue j = true) (hf : (fromServer s).failed = true) :
+    (readStatus fixed j (.status s m)).1.msg = .server m ∧
+    (readStatus fixed j (.status s m)).1.status = fromServer s := by
+  simp [readStatus, hd, hf]
+
+/-- … and then `get_results` with no usable results raises exactly that message -/
+theorem failed_job_reports_message (fixed : Bool) (j : Job) (r1 r2 : Resp)
+    (hf : j.status.failed = true) (hc : j.cache = none) :
+    (getResults fixed j r1 r2 .missing).2.res = .raised (.jobFailed j.msg) := by
+  have hcomp : j.status.completed = true := by
+    cases hs : j.status <;> simp_all [St.failed, St.completed]
+  simp [getResults, readStatus_not_due (statusDue_of_completed hcomp),
+    maybeCompleted_of_completed hcomp, hc, hf]
+
+example : ({ born 1 with status := .error, msg := .server 7 } : Job).status.failed = true := by decide
+
+theorem cancellable_iff (s : St) :
+    s.cancellable = true ↔ s = .waiting ∨ s = .running ∨ s = .suspended := by
+  cases s <;> simp [St.cancellable]
+
+theorem failed_iff (s : St) : s.failed = true ↔ s = .error ∨ s = .canceled := by
+  cases s <;> simp [St.failed]
+
+theorem completed_iff (s : St) : s.completed = true ↔ s = .success ∨ s = .error ∨ s = .canceled := by
+  cases s <;> simp [St.completed]
+
+/-- Cancelling is only accepted for WAITING/RUNNING/SUSPENDED: a cancel request reaches the
+handler only if the status read by `cancel` succeeded and showed one of those; otherwise (read
+succeeded, other status) `RuntimeError` is raised and the job is left as the read left it. -/
+theorem cancel_guard (fixed : Bool) (j : Job) (r : Resp) (h : HResp) :
+    (∀ i, Call.cancel i ∈ (cancel fixed j r h).2.calls →
+      (readStatus fixed j r).2.1 = none ∧ (readStatus fixed j r).1.status.cancellable = true ∧
+      i = j.id) ∧
+    ((readStatus fixed j r).2.1 = none → (readStatus fixed j r).1.status.cancellable = false →
+      (cancel fixed j r h).2.res = .raised .notCancellable ∧
+      (cancel fixed j r h).1 = (readStatus fixed j r).1) := by
+  have hm := mem_readStatus_calls fixed j r
+  have hid := readStatus_id fixed j r
+  unfold cancel
+  generalize readStatus fixed j r = p at hm hid ⊢
+  obtain ⟨j1, e, c⟩ := p
+  simp only at hm hid
+  cases e with
+  | some e =>
+    refine ⟨fun i hi => ?_, fun h0 => by simp at h0⟩
+    have := hm _ hi
+    simp at this
+  | none =>
+    simp only
+    cases hc : j1.status.cancellable
+    · refine ⟨fun i hi => ?_, fun _ _ => by simp⟩
+      simp only [Bool.false_eq_true, if_false] at hi
+      have := hm _ hi
+      simp at this
+    · refine ⟨fun i hi => ⟨trivial, rfl, ?_⟩, fun _ h0 => by simp at h0⟩
+      simp only [if_true] at hi
+      cases h <;>
+        (simp only [List.mem_append, List.mem_singleton] at hi
+         rcases hi with hi | hi
+         · have := hm _ hi; simp at this
+         · simp only [Call.cancel.injEq] at hi; rw [hi, hid])
+
+/-- an accepted cancellation: exactly one cancel request for this job, status CANCEL_REQUESTED -/
+theorem cancel_accepted (fixed : Bool) (j : Job) (r : Resp) (n : Nat)
+    (hok : (readStatus fixed j r).2.1 = none)
+    (hc : (readStatus fixed j r).1.status.cancellable = true) :
+    (cancel fixed j r (.ok n)).2 = ⟨.ok, (readStatus fixed j r).2.2 ++ [.cancel j.id]⟩ ∧
+    (cancel fixed j r (.ok n)).1.status = .cancelRequested := by
+  have hid := readStatus_id fixed j r
+  unfold cancel
+  generalize readStatus fixed j r = p at hok hc hid ⊢
+  obtain ⟨j1, e, c⟩ := p
+  simp only at hok hc hid
+  subst hok
+  simp [hc, hid]
+
+example : (readStatus true (born 1) (.http 429)).2.1 = none ∧
+    (readStatus true (born 1) (.http 429)).1.status.cancellable = true := by decide
+
+example : (readStatus true { born 1 with status := .unknown } (.http 429)).2.1 = none ∧
+    (readStatus true { born 1 with status := .unknown } (.http 429)).1.status.cancellable = false := by
+  decide
+
+/-- Re-running is only accepted for failed (ERROR/CANCELED) jobs: a rerun request reaches the
+handler only if the status read succeeded and showed a failed status; otherwise the call raises
+(`RuntimeError`, or the error of the second status read made while building the message), no rerun
+request is sent and no new job is produced. -/
+theorem rerun_guard (fixed : Bool) (j : Job) (r1 r2 : Resp) (h : HResp) (sw : Bool) :
+    (∀ i, Call.rerun i ∈ (rerun fixed j r1 r2 h sw).2.calls →
+      (readStatus fixed j r1).2.1 = none ∧ (readStatus fixed j r1).1.status.failed = true ∧
+      i = j.id) ∧
+    ((readStatus fixed j r1).2.1 = none → (readStatus fixed j r1).1.status.failed = false →
+      (∃ e, (rerun fixed j r1 r2 h sw).2.res = .raised e) ∧
+      (rerun fixed j r1 r2 h sw).1.id = j.id) := by
+  have hm := mem_readStatus_calls fixed j r1
+  have hid := readStatus_id fixed j r1
+  unfold rerun
+  generalize readStatus fixed j r1 = p at hm hid ⊢
+  obtain ⟨j1, e, c⟩ := p
+  simp only at hm hid
+  cases e with
+  | some e =>
+    refine ⟨fun i hi => ?_, fun h0 => by simp at h0⟩
+    have := hm _ hi
+    simp at this
+  | none =>
+    simp only
+    cases hc : j1.status.failed
+    · simp only [Bool.false_eq_true, if_false]
+      have hm2 := mem_readStatus_calls fixed j1 r2
+      have hid2 := readStatus_id fixed j1 r2
+      generalize readStatus fixed j1 r2 = p2 at hm2 hid2 ⊢
+      obtain ⟨j2, e2, c2⟩ := p2
+      simp only at hm2 hid2
+      cases e2 <;>
+        (refine ⟨fun i hi => ?_, fun _ _ => ⟨⟨_, rfl⟩, by rw [hid2, hid]⟩⟩
+         simp only [List.mem_append] at hi
+         rcases hi with hi | hi
+         · have := hm _ hi; simp at this
+         · have := hm2 _ hi; simp at this)
+    · refine ⟨fun i hi => ⟨trivial, rfl, ?_⟩, fun _ h0 => by simp at h0⟩
+      simp only [if_true] at hi
+      cases h <;>
+        (simp only [List.mem_append, List.mem_singleton] at hi
+         rcases hi with hi | hi
+         · have := hm _ hi; simp at this
+         · simp only [Call.rerun.injEq] at hi; rw [hi, hid])
+
+/-- an accepted rerun yields a new job carrying the identifier the server returned, WAITING, born
+sent (so, on the repaired code, it can never be submitted again — `sent_at_most_once`); the old
+job is left untouched. -/
+theorem rerun_new_id (fixed : Bool) (j : Job) (r1 r2 : Resp) (n : Nat) (sw : Bool)
+    (hok : (readStatus fixed j r1).2.1 = none)
+    (hf : (readStatus fixed j r1).1.status.failed = true) :
+    (rerun fixed j r1 r2 (.ok n) sw).2 = ⟨.newJob n, (readStatus fixed j r1).2.2 ++ [.rerun j.id]⟩ ∧
+    (rerun fixed j r1 r2 (.ok n) sw).1 = (if sw then born n else (readStatus fixed j r1).1) ∧
+    (born n).id = some n ∧ (born n).status = .waiting ∧ (born n).sentCount = 1 := by
+  have hid := readStatus_id fixed j r1
+  unfold rerun
+  generalize readStatus fixed j r1 = p at hok hf hid ⊢
+  obtain ⟨j1, e, c⟩ := p
+  simp only at hok hf hid
+  subst hok
+  simp [hf, hid, born]
+
+example : (readStatus true { born 1 with status := .error } .conn).2.1 = none ∧
+    (readStatus true { born 1 with status := .error } .conn).1.status.failed = true := by decide
+
+/-- on the repaired code a job born from `rerun` refuses `execute_async` (no second submission) -/
+theorem rerun_child_cannot_execute (n : Nat) (h : HResp) :
+    step true (born n) (.execute h) = (born n, ⟨.raised .assertion, []⟩) := by
+  simp [step, execute, canExecute, born]
+
+/-- … whereas on the pinned tree it is submitted again as a third job -/
+theorem current_code_resubmits_rerun_child :
+    step false (born 1) (.execute (.ok 2)) =
+      ({ born 1 with id := some 2, sentCount := 2 }, ⟨.ok, [.create]⟩) := by
+  decide
+
+/-! ## the throttle -/
+
+/-- a status read inside the refresh delay is a no-op: no request, nothing changes, cached status returned -/
+theorem throttled_read_is_noop (fixed : Bool) (delay : Int) (t : TJob) (now : Int) (r : Resp)
+    (h : now - t.prev ≤ delay) : readStatusAt fixed delay t now r = (t, none, []) := by
+  unfold readStatusAt
+  split
+  · rfl
+  · have : ¬ now - t.prev > delay := by omega
+    simp [this]
+
+example : (5 : Int) - 5 ≤ 1 := by decide
+
+/-- with a negative delay and a clock that does not run backwards every status read is due: the
+clocked machine behaves exactly as the main model (this is how the harness runs the real code:
+`STATUS_REFRESH_DELAY = -1`), and the clock hypothesis is re-established. -/
+theorem negative_delay_every_read_due (fixed : Bool) (delay : Int) (t : TJob) (now : Int) (r : Resp)
+    (hd : delay < 0) (hm : t.prev ≤ now) :
+    (readStatusAt fixed delay t now r).1.job = (readStatus fixed t.job r).1 ∧
+    (readStatusAt fixed delay t now r).2 = (readStatus fixed t.job r).2 ∧
+    (readStatusAt fixed delay t now r).1.prev ≤ now := by
+  unfold readStatusAt
+  cases hdue : statusDue t.job
+  · simp [readStatus_not_due hdue, hm]
+  · have : now - t.prev > delay := by omega
+    simp [this]
+
+example : (-1 : Int) < 0 ∧ (3 : Int) ≤ 3 := by decide
+
 end PM.C17
